@@ -23,4 +23,5 @@ INVARIANT MC_C05
 INVARIANT MC_C08
 INVARIANT MC_C16
 INVARIANT MC_C20
+INVARIANT MC_Secrets
 CHECK_DEADLOCK FALSE
